@@ -226,8 +226,10 @@ pub fn check_case(hc: &HistCheck, case: &HistCase, col: &Collector) -> CheckResu
         col.class_n("decaps-outcomes-asserted", out.outcomes);
         col.class_n("wire-comparisons", out.wire_checks);
         for (k, v) in &out.counters {
-            if k.starts_with("verdict:") || k.starts_with("probe") || *k == "disabled-probe" || *k == "recaps" {
+            if k.starts_with("verdict:") || k.starts_with("probe") || *k == "disabled-probe" || *k == "recaps" || k.contains("-checked") || k.contains("-probe") {
                 col.class_n(k, *v);
+            } else {
+                col.class_n(&format!("op:{k}"), *v);
             }
         }
         if let Some(s) = &out.off_property {
